@@ -58,7 +58,9 @@ class InterruptableThread(threading.Thread):
         """
         Trigger a thread ending exception!
         """
-        assert self.is_alive(), "thread must be started"
+        if not self.is_alive():
+            # It ended on its own in the meantime; there is nothing to interrupt
+            return
         for thread_id, thread in threading._active.items():
             if thread is self:
                 InterruptableThread._async_raise(thread_id, exception)
@@ -77,7 +79,9 @@ def timeout(duration, func, *args, on_timeout=None, **kwargs):
     Executes a function and kills it (throwing an exception) if it runs for
     longer than the specified duration, in seconds. If given, ``on_timeout``
     is called right before the still running function gets interrupted, so
-    that the caller can disown whatever the function does from then on.
+    that the caller can disown whatever the function does from then on. When
+    ``on_timeout`` returns False there was nothing left to disown: the function
+    completed its work while the time ran out, and is treated as finished.
     """
 
     # If libraries are not available, then we execute normally
@@ -88,9 +92,13 @@ def timeout(duration, func, *args, on_timeout=None, **kwargs):
     target_thread.start()
     target_thread.join(duration)
 
-    if target_thread.is_alive():
-        if on_timeout is not None:
-            on_timeout()
+    timed_out = target_thread.is_alive()
+    if timed_out and on_timeout is not None and on_timeout() is False:
+        # Finished at the very last moment; let the thread wind up
+        target_thread.join(duration)
+        timed_out = target_thread.is_alive()
+
+    if timed_out:
         target_thread.terminate()
         timeout_exception = TimeoutError('Your code took too long to run '
                                          '(it was given {} seconds); '
